@@ -3729,7 +3729,7 @@ class AllConnGraph(nx.DiGraph):
                 for idx in indices_list:
                     chain.append(idx.indexed_val(chain[-1]))
 
-                if np.shape(val) != () and np.squeeze(val).shape != np.squeeze(chain[-1]).shape:
+                if np.size(val) != 1 and np.squeeze(val).shape != np.squeeze(chain[-1]).shape:
                     msg = (f"Value shape {np.squeeze(val).shape} does not match shape "
                            f"{np.squeeze(chain[-1]).shape} of the destination")
             else:
